@@ -437,7 +437,7 @@ def rule_reindex(ctx):
         if atom[0] == 'cmp' and atom[1] == 'is' and atom[2][0] == 'call' and T.dotted(atom[2][1]) == 'type' and atom[3] == ('name', 'slice'):
             return False
         return None
-    ev = run(ctx, fi, oracle=oracle, mode='join')
+    ev = run(ctx, fi, oracle=oracle, mode='join', values_as_items=True)
     evd = run(ctx, fd, oracle=oracle, mode='join')
     newvals = ('call', ('attr', ('name', 'np'), 'asarray'), (VALUES,), ())
     okk = True
@@ -470,7 +470,11 @@ def rule_reindex(ctx):
             okk = False
         indices = c
     ta = [e.a for e in p.calls('take_axis')]
-    if indices is not None:
+    if indices is not None and not ta:
+        # no take_axis at all: the variables are sampled some other way (reduce_axis / np.take directly ...), a form this twin comparison does not read
+        ctx.undecide('R3', 'Dataset.reindex_axis no longer samples its variables through take_axis: the step is written in a form the rule does not know')
+        okk = False
+    elif indices is not None:
         if len(ta) != 1 or ta[0][2][:1] != (indices,) or T.kw(ta[0], 'indexing') != const('position') or T.call_receiver(ta[0]) != SELF:
             ctx.violated('R3', fi, 'take_axis', "the located positions are taken with self.take_axis(indices, axis=..., indexing='position')", node=p.node)
             okk = False
